@@ -25,6 +25,7 @@
 #include <sys/mman.h>
 #include <eav.h>
 #include <eav/auto_tld.h>
+#include <idn2.h>
 #include "common.h"
 
 static long stride = 8;
@@ -177,6 +178,144 @@ do_ip (long *v, int nv)
 }
 
 /* ------------------------------------------------------------------ */
+/* kind 5: whole address.
+ * [5, optbits, n, bytes.., at, c12, 8 x (exp, erc, eflag, mrc, mflag)]  (tld off x 4 modes, tld on x 4 modes) */
+#define NOPIN 99
+#define ALLOW_ALL 0x7fc
+
+static void
+email_event (FILE *f, int ob, int mode, int tld, const long *b, int n, int rc, int fl, int idn, int mrc, int mfl)
+{
+    fprintf (f, "{\"e\":\"email\",\"o\":%d,\"mode\":%d,\"tld\":%d,\"in\":", ob, mode, tld);
+    put_bytes (f, b, n);
+    fprintf (f, ",\"rc\":%d,\"fl\":%d,\"idn\":%d,\"mrc\":%d,\"mfl\":%d", rc, fl, idn, mrc, mfl);
+    if (mode == 6531) {
+        /* the environment: what the converter itself answers for the domain part */
+        int at = -1;
+        for (int i = 0; i < n; i++) if (b[i] == '@') at = i;
+        if (at >= 0 && at + 1 < n && b[at + 1] != '[') {
+            char *tmp = malloc (n - at), *out = NULL;
+            int code;
+            for (int i = at + 1; i < n; i++) tmp[i - at - 1] = (char) b[i];
+            tmp[n - at - 1] = 0;
+            code = idn2_to_ascii_8z (tmp, &out, IDN2_NONTRANSITIONAL);
+            fprintf (f, ",\"cc\":%d,\"co\":", code);
+            if (code == IDN2_OK && out) put_ubytes (f, (unsigned char *) out, (int) strlen (out));
+            else fputs ("[]", f);
+            if (out) idn2_free (out);
+            free (tmp);
+        }
+    }
+    fputs ("}\n", f);
+}
+
+static void
+do_email (long *v, int nv)
+{
+    int ob = (int) v[1], n = (int) v[2];
+    const long *b = v + 3, *x = v + 3 + n;
+    int at = (int) x[0], c12 = (int) x[1];
+    int rcs[2][4], fls[2][4], rcl[4];
+    if (nv != 3 + n + 2 + 40) die ("bad email vector");
+    x += 2;
+    for (int m = 0; m < 4; m++) rcl[m] = 1;
+    for (int tld = 0; tld < 2; tld++) for (int m = 0; m < 4; m++) {
+        const long *e = x + 5 * (tld * 4 + m);
+        int exp = (int) e[0], erc = (int) e[1], eflag = (int) e[2], mrc = (int) e[3], mfl = (int) e[4];
+        int mode = emails[m].mode;
+        const char *p = place (b, n, (m + tld) & 1, -1);
+        eav_result_t *r = emails[m].f (p, n, tld);
+        int rc = r->rc, idn = r->idn_rc;
+        int fl = (r->is_ipv4 ? 1 : 0) | (r->is_ipv6 ? 2 : 0) | (r->is_domain ? 4 : 0);
+        int eexp = exp, bad = 0;
+        eav_result_free (r);
+        cnt.calls++; cnt.checked++; if (exp != 2) cnt.pinned++;
+        rcs[tld][m] = rc; fls[tld][m] = fl;
+
+        if (exp == 3) {             /* 6531 host name: the converter may refuse the domain */
+            if (rc == -EEAV_IDN_ERROR) { eexp = 2; if (fl != 0) bad = 1; }
+            else eexp = (erc == NOPIN || erc >= 0) ? 1 : 0;
+        }
+        if (eexp == 1 && (rc < 0 || (erc != NOPIN && rc != erc))) bad = 2;
+        if (eexp == 0 && (rc >= 0 || (erc != NOPIN && rc != erc))) bad = 2;
+        if (bad == 2)
+            viol ("email", tld ? "decision-tld" : "decision", mode, ob, b, n, erc == NOPIN ? eexp : erc, rc, mrc);
+        else if (eexp != 2 && eflag != -1 && fl != eflag)
+            viol ("email", "flag", mode, ob * 2 + tld, b, n, eflag, fl, rc);
+        else if (bad == 1 || !(fl == 0 || fl == 1 || fl == 2 || fl == 4) || (rc >= 0 && fl == 0) || rc > 9
+                 || (!tld && rc > 0))
+            viol ("email", "record", mode, ob * 2 + tld, b, n, rc, fl, idn);
+        else if (rc != mrc || fl != mfl)
+            { cnt.drift++; email_event (f_drift, ob, mode, tld, b, n, rc, fl, idn, mrc, mfl); }
+
+        /* C01: the high-level function equals the composition of the public per-part validators */
+        if (at >= 1 && at < n && at - 1 <= 64) {
+            const char *L = p, *D = p + at, *end = p + n;
+            int lrc = locals[m].f (L, L + at - 1), want = 1000, widn = 0;
+            /* the local part handed over is delimited by '@', not NUL: also try it NUL-terminated */
+            rcl[m] = lrc;
+            if (lrc != 0) want = lrc;
+            else if (*D != '[') {
+                if (m < 3) {
+                    int drc = is_ascii_domain (D, end);
+                    if (drc != 0) want = drc;
+                    else if (!tld) want = 0;
+                    else if (is_special_domain (D, end)) want = TLD_TYPE_SPECIAL;
+                    else { const char *dot = strrchr (D, '.'); want = dot ? is_tld (dot + 1, end) : -EEAV_DOMAIN_NOT_FQDN; }
+                } else {
+                    want = is_utf8_domain (&widn, D, end, tld);
+                    if (widn != idn) viol ("email", "composition-idn", mode, ob * 2 + tld, b, n, widn, idn, rc);
+                }
+            }
+            cnt.calls++;
+            if (want != 1000 && want != rc)
+                viol ("email", "composition", mode, ob * 2 + tld, b, n, want, rc, lrc);
+        }
+        unplace ();
+
+        /* C01/C15: the object selects the rules of the mode chosen before eav_setup */
+        {
+            eav_t ev;
+            int ret, err;
+            const char *msg;
+            memset (&ev, 0x5a, sizeof ev);          /* whatever was in memory before eav_init */
+            eav_init (&ev);
+            ev.rfc = (EAV_RFC) m;
+            ev.tld_check = tld;
+            ev.allow_tld = ALLOW_ALL;
+            if (eav_setup (&ev) != 0) viol ("email", "eav_setup refused a defined mode", mode, ob, b, n, 0, 1, 0);
+            p = place (b, n, m & 1, -1);
+            ret = eav_is_email (&ev, p, n);
+            unplace ();
+            err = ev.errcode;
+            msg = eav_errstr (&ev);
+            cnt.calls++;
+            if (ev.result == NULL || ev.result->rc != rc || ret != (rc >= 0) || err != (rc < 0 ? -rc : 0)
+                || ((ev.result->is_ipv4 ? 1 : 0) | (ev.result->is_ipv6 ? 2 : 0) | (ev.result->is_domain ? 4 : 0)) != fl)
+                viol ("email", "eav-level", mode, ob * 2 + tld, b, n, rc, ev.result ? ev.result->rc : 1000, err);
+            else if (msg == NULL || (ret == 0 && msg[0] == 0))
+                viol ("email", "eav-message", mode, ob * 2 + tld, b, n, rc, err, 0);
+            eav_free (&ev);
+        }
+    }
+    /* C12 relations on the observed results */
+    for (int tld = 0; tld < 2; tld++) {
+        int *r = rcs[tld], *f = fls[tld];
+        if (c12) {
+            if (!(r[0] == r[1] && r[1] == r[2] && f[0] == f[1] && f[1] == f[2]))
+                viol ("email", "cross-mode", 0, ob * 2 + tld, b, n, r[0], r[1], r[2]);
+            else if (!(r[3] == r[0] || r[3] == -EEAV_IDN_ERROR))
+                viol ("email", "cross-mode-6531", 6531, ob * 2 + tld, b, n, r[0], r[3], f[3]);
+        }
+        if (r[1] >= 0 && r[0] < 0)
+            viol ("email", "cross-inclusion", 0, ob * 2 + tld, b, n, r[0], r[1], 0);
+        for (int m = 1; m < 3; m++)         /* same domain part, local part fine in both modes */
+            if (rcl[0] == 0 && rcl[m] == 0 && (r[0] != r[m] || f[0] != f[m]))
+                viol ("email", "cross-domain", emails[m].mode, ob * 2 + tld, b, n, r[0], r[m], f[m]);
+    }
+}
+
+/* ------------------------------------------------------------------ */
 int
 main (int argc, char **argv)
 {
@@ -197,6 +336,7 @@ main (int argc, char **argv)
         case 1: do_local (v, nv); break;
         case 2: do_host (v, nv); break;
         case 3: do_ip (v, nv); break;
+        case 5: do_email (v, nv); break;
         default: die ("unknown vector kind");
         }
     }
